@@ -166,6 +166,7 @@ def cases(rng, tier):
 SPEC = {
     'lean': ['C14'],
     'cases': cases,
+    'big': True,
     'stream': 'C14 file history stream (real files in a scratch directory)',
     'rule': 'one action value executed twice with another operation in between (every shareable operation × every operation × 6 modes); operation histories of permitted operations (read n / all, write, tell, absolute / relative seek, truncate to '
             'n / to the position) ending with close: all 2-operation (quick) / 3-operation sequences per mode on a 3-byte '
